@@ -342,6 +342,20 @@ def t_ctx(task):
                     ck.any(_call(f, x, y, **kw), ['ctx', f.__name__ + str(kw), repr(x), repr(y), p])
             ck.any(_call(mp.fsum, [x, M[(i + 3) % len(M)], 2]), ['ctx', 'fsum', repr(x), None, p]) if x._mpf_[1] and abs(x._mpf_[2]) < 1000 and abs(M[(i + 3) % len(M)]._mpf_[2]) < 1000 else None
             ck.any(_call(mp.fdot, [x, 2], [M[(i + 3) % len(M)], 3]), ['ctx', 'fdot', repr(x), None, p]) if abs(x._mpf_[2]) < 1000 and abs(M[(i + 3) % len(M)]._mpf_[2]) < 1000 else None
+        # values entering from other exact number types: every spelling of zero, special values, both signs
+        from decimal import Decimal
+        from fractions import Fraction
+        foreign = [Decimal('-0'), Decimal('0'), Decimal('-0.00'), Decimal('0E+5'), Decimal('-0E-7'), Decimal('1.5'), Decimal('-2.75E-3'), Decimal('1E-400'), Decimal('-1E+400'),
+                   Decimal('NaN'), Decimal('Infinity'), Decimal('-Infinity'), Decimal(-1) * 0, Fraction(0), Fraction(-0, 5), Fraction(-7, 3), Fraction(1, 3), -0.0, 0.0, float('inf'), float('-inf'), float('nan'),
+                   0, -0, complex(-0.0, 0.0), complex(0.0, -0.0), complex(float('inf'), -0.0), '0', '-0', '-0.0', '-0e5', '0.000', '-.0', '+0', 'inf', '-inf', 'nan', '-1e-9999999']
+        for v in foreign:
+            for name, f in (('convert', mp.convert), ('mpmathify', mp.mpmathify), ('mpf', mpf), ('mpc', mpc), ('x+v', lambda t: M[5] + t), ('v*x', lambda t: t * M[5]), ('sqrt', mp.sqrt),
+                            ('mpc-parts', lambda t: mpc(t, t)), ('ivmpf', iv.mpf), ('fadd', lambda t: mp.fadd(t, 0, exact=True))):
+                if isinstance(v, complex) and name in ('mpf', 'ivmpf', 'mpc-parts'):
+                    continue
+                r = _call(f, v)
+                ck.any(r, ['ctx', 'foreign-' + name, repr(v), None, p])
+                consequences(acc, mp, r, ['ctx', 'foreign-' + name, repr(v), None, p])
         acc.sample(['ctx', 'add', repr(M[3]), repr(M[8]), p])
     finally:
         mp.prec = 53; iv.prec = 53
